@@ -31,6 +31,17 @@ PROPS = {
         assumptions=[],
         open=[],
     ),
+    "C06": dict(
+        title="interleaving search (answers as multiset / membership)",
+        props_module="PvModel.Props.C06",
+        rule="search programs (conj/conde/disj/fresh over == leaves, member/append calls on bounded lists); 1 in 4 with an infinite producer "
+             "(anyo, open-ended member/append, always) observed on a bounded prefix; finite ones compared as multisets with the reference "
+             "interpreter and with dfs{} of the same program on the real engine, infinite ones by membership of every delivered answer; "
+             "non-trivial = >=2 answers; distinct = distinct case lines",
+        trusted=SEARCH_TRUST,
+        assumptions=[],
+        open=[],
+    ),
     "C01": dict(
         title="unification (State::unify vs unifyF)",
         props_module="PvModel.Props.C01",
